@@ -39,7 +39,12 @@ import z3
 FL = "ioflo/base/logging.py"
 
 VAL = Opaque("c22val")
+NAME = Opaque("c22name")        # tags and field names: keys with equality only
+FMT = Opaque("c22fmt")          # format strings stored in .formats (only `is it a one-conversion format` matters)
 VS = sorts(VAL)[0]
+NS = sorts(NAME)[0]
+FS_ = sorts(FMT)[0]
+SINGLEF = z3.Function("c22_single_fmt", FS_, z3.BoolSort())     # the format is '%s' / '\t%s'
 CELL = Tup(INT, VAL)
 T_, V_, TAB_, NL_ = 0, 1, 2, 3
 VAL0 = z3.Const("c22val_none", VS)                       # payload of the cells that carry no value
@@ -51,18 +56,18 @@ classdecl("C22Store", fields=dict(stamp=Opt(REAL)))
 classdecl("C22File", fields=dict(closed=BOOL, cells=List(CELL), nwrites=INT, nrec=INT))
 classdecl("C22StrIO", fields=dict(cells=List(CELL), nnl=INT))
 classdecl("C22Text", fields=dict(cells=List(CELL), nnl=INT))
-classdecl("C22Data", fields=dict(_d=Dict(STR, VAL)))
-classdecl("Loggee", fields=dict(stamp=Opt(REAL), name=STR, _keys=List(STR), _d=Dict(STR, VAL)),
+classdecl("C22Data", fields=dict(_d=Dict(NAME, VAL)))
+classdecl("Loggee", fields=dict(stamp=Opt(REAL), _keys=List(NAME), _d=Dict(NAME, VAL)),
           truthy=lambda E, o: E.llen(E.rd_field(o, "_keys")) > 0)
-classdecl("ODLoggees", fields=dict(_keys=List(STR), _d=Dict(STR, Ref("Loggee"))),
+classdecl("ODLoggees", fields=dict(_keys=List(NAME), _d=Dict(NAME, Ref("Loggee"))),
           truthy=lambda E, o: E.llen(E.rd_field(o, "_keys")) > 0)
-classdecl("ODFields", fields=dict(_keys=List(STR), _d=Dict(STR, List(STR))),
+classdecl("ODFields", fields=dict(_keys=List(NAME), _d=Dict(NAME, List(NAME))),
           truthy=lambda E, o: E.llen(E.rd_field(o, "_keys")) > 0)
-classdecl("ODFmt", fields=dict(_keys=List(STR), _d=Dict(STR, STR)),
+classdecl("ODFmt", fields=dict(_keys=List(NAME), _d=Dict(NAME, FMT)),
           truthy=lambda E, o: E.llen(E.rd_field(o, "_keys")) > 0)
-classdecl("ODFormats", fields=dict(tfmt=STR, _d=Dict(STR, Ref("ODFmt"))))
-classdecl("ODLasts", fields=dict(_d=Dict(STR, Ref("C22Data"))))
-classdecl("Log", file=FL, fields=dict(stamp=Opt(REAL), store=Ref("C22Store"), name=STR, file=Ref("C22File"),
+classdecl("ODFormats", fields=dict(tfmt=FMT, _d=Dict(NAME, Ref("ODFmt"))))
+classdecl("ODLasts", fields=dict(_d=Dict(NAME, Ref("C22Data"))))
+classdecl("Log", file=FL, fields=dict(stamp=Opt(REAL), store=Ref("C22Store"), file=Ref("C22File"),
                                       loggees=Ref("ODLoggees"), fields=Ref("ODFields"), formats=Ref("ODFormats"),
                                       lasts=Ref("ODLasts")))
 
@@ -103,7 +108,7 @@ def _list_of_pairs(E, od):
     n = E.llen(keys)
     ka = E.larrs(keys)[0]
     vals = E.dvals(d)[0]
-    return E.new_list(Tup(STR, d.vt), n, [ka, z3.Lambda([KLAM], z3.Select(vals, z3.Select(ka, KLAM)))])
+    return E.new_list(Tup(NAME, d.vt), n, [ka, z3.Lambda([KLAM], z3.Select(vals, z3.Select(ka, KLAM)))])
 
 
 def _list_of_values(E, od):
@@ -159,7 +164,7 @@ def _loggee_getitem(E, sh, key):
 def _loggee_keys(E, sh):
     def keys(E2):
         ks = E2.rd_field(sh, "_keys")
-        return E2.new_list(STR, E2.llen(ks), E2.larrs(ks))
+        return E2.new_list(NAME, E2.llen(ks), E2.larrs(ks))
     keys._specfunc = True
     return keys
 
@@ -228,7 +233,7 @@ def _ext_strmod(E, args, kwargs):
     if isinstance(fmt, str):
         single = fmt in ("%s", "\t%s")
     else:
-        single = E.branch(z3.Or(zstr(fmt) == z3.StringVal("%s"), zstr(fmt) == z3.StringVal("\t%s")))
+        single = E.branch(SINGLEF(fmt.t))
     if single:
         if bad is not False and E.branch(bad):
             raise PyRaise(ExcV(TypeError, ("not all arguments converted during string formatting",)))
@@ -354,7 +359,7 @@ def loggee_at(E, log, k):
 def tag_at(E, log, k):
     od = E.rd_field(log, "loggees")
     keys, _d = _od_parts(E, od)
-    return Sym(z3.Select(E.larrs(keys)[0], zint(k)), "str")
+    return Sym(z3.Select(E.larrs(keys)[0], zint(k)), ("opaque", "c22name"))
 
 
 nloggees.native = lambda log: len(log.loggees)
@@ -465,12 +470,11 @@ SINGLE_FMT = ["formats_single(self)"]
 def formats_single(E, log):
     """every format string is '%s' or '\\t%s' (what Log.prepare writes)"""
     fm = E.rd_field(log, "formats")
-    tf = zstr(E.rd_field(fm, "tfmt"))
+    tf = E.rd_field(fm, "tfmt").t
     r = z3.Int("r!fs")
-    k = z3.Const("k!fs", STRS)
-    vals = E.harr(("dv", STR.key(), STR.key(), 0), [z3.IntSort(), STRS], STRS)
-    ok = lambda x: z3.Or(x == z3.StringVal("%s"), x == z3.StringVal("\t%s"))
-    return Sym(z3.And(ok(tf), z3.ForAll([r, k], ok(z3.Select(z3.Select(vals, r), k)))), "bool")
+    k = z3.Const("k!fs", NS)
+    vals = E.harr(("dv", NAME.key(), FMT.key(), 0), [z3.IntSort(), NS], FS_)
+    return Sym(z3.And(SINGLEF(tf), z3.ForAll([r, k], SINGLEF(z3.Select(z3.Select(vals, r), k)))), "bool")
 
 
 formats_single.native = lambda log: all(f in ("%s", "\t%s") for f in [log.formats["_time"]] +
